@@ -112,6 +112,12 @@ def describe_independent(top):
     topology.atoms, a residue's / chain's index its position in topology.residues / chains, n_bonds a tally over
     topology.bonds by object identity; the attributes the objects report are returned next to them"""
     atoms = list(top.atoms)
+    # an atom's index is its position in the flat list Topology.atom(i) reads (by object identity); for a topology
+    # built residue by residue this is also its position in topology.atoms, after add_atom to an EARLIER residue it
+    # is not (the hierarchy iterates chains -> residues -> atoms)
+    flat = {id(top.atom(i)): i for i in range(top.n_atoms)}
+    if len(flat) != len(atoms) or any(id(a) not in flat for a in atoms):
+        raise RuntimeError("Topology.atoms and Topology.atom(i) do not range over the same atoms")
     rpos = {id(r): i for i, r in enumerate(top.residues)}
     cpos = {id(c): i for i, c in enumerate(top.chains)}
     tally = {id(a): 0 for a in atoms}
@@ -121,7 +127,8 @@ def describe_independent(top):
                 tally[id(x)] += 1
     out = []
     for i, a in enumerate(atoms):
-        out.append({"name": a.name, "index": i, "attr_index": a.index, "n_bonds": tally[id(a)], "attr_n_bonds": a.n_bonds,
+        out.append({"name": a.name, "index": flat[id(a)], "position": i, "attr_index": a.index, "n_bonds": tally[id(a)],
+                    "attr_n_bonds": a.n_bonds,
                     "symbol": a.element.symbol, "mass": repr(float(a.element.mass)), "resname": a.residue.name,
                     "resSeq": a.residue.resSeq, "resindex": rpos[id(a.residue)], "attr_resindex": a.residue.index,
                     "chainindex": cpos[id(a.residue.chain)], "attr_chainindex": a.residue.chain.index,
@@ -151,9 +158,22 @@ def apply_edit(top, e):
             return "appended"
         top.insert_atom(e["name"], el, r, index=before + pos, rindex=pos)
         return "inserted at %d" % (before + pos)
+    if op == "add_late":
+        # the way a structure gets patched: a missing atom is added to an earlier residue after the later ones exist
+        el = None if e["element"] is None else E.Element.getBySymbol(e["element"])
+        top.add_atom(e["name"], el, residues[e["res"]])
+        return "added late"
     if op == "delete":
         top.delete_atom_by_index(e["index"])
         return "deleted"
+    if op == "renumber":
+        for r in residues:
+            r.resSeq += e["shift"]
+        return "renumbered"
+    if op == "resegment":
+        for r in residues:
+            r.segment_id = e["map"].get(r.segment_id, r.segment_id)
+        return "resegmented"
     if op == "bond":
         a, b = atoms[e["i"]], atoms[e["j"]]
         if a is b or any((x is a and y is b) or (x is b and y is a) for x, y in top.bonds):
@@ -177,25 +197,46 @@ def apply_edit(top, e):
     return "set"
 
 
+def make_twin(top, spec, st):
+    """a second Topology object describing the same atoms, residue names, elements and bonds (so that it compares ==
+    and hashes like the first one), with another residue numbering / other segment and chain ids - the same system read
+    from a differently numbered file.  Built through the public API, edited before it is ever queried."""
+    new = top.copy() if st.get("how", "copy") == "copy" else build_topology(spec)
+    for r in new.residues:
+        r.resSeq += st.get("shift", 0)
+        r.segment_id = st.get("segmap", {}).get(r.segment_id, r.segment_id)
+    for c, cid in zip(new.chains, st.get("chain_ids", [])):
+        c.chain_id = cid
+    return new
+
+
 def run_histories(histories):
-    """one Topology object per history; selections interleaved with in-place edits.  Every selection is reported with
-    the version (independent description) of the topology it ran on."""
+    """per history one Topology object (plus the twins the history creates); selections interleaved with in-place
+    edits.  Every selection is reported with the version (independent description) of the topology it ran on."""
     versions, results = [], []
     for h in histories:
-        top = build_topology(h["spec"])
-        versions.append(describe_independent(top))
+        tops = [build_topology(h["spec"])]
+        versions.append(describe_independent(tops[0]))
+        cur = [len(versions) - 1]
         for st in h["steps"]:
+            k = st.get("obj", 0)
             if st["op"] == "sel":
-                r = run_case(top, st["s"])
-                r["version"] = len(versions) - 1
+                r = run_case(tops[k], st["s"])
+                r["version"] = cur[k]
                 results.append(r)
-            else:
-                try:
-                    apply_edit(top, st)
-                except Exception as e:  # noqa: BLE001
-                    results.append({"edit_error": "%s: %s" % (cls(e), e), "version": len(versions) - 1, "step": st})
-                    break
-                versions.append(describe_independent(top))
+                continue
+            try:
+                if st["op"] == "twin":
+                    tops.append(make_twin(tops[st.get("from", 0)], h["spec"], st))
+                    k = len(tops) - 1
+                    cur.append(None)
+                else:
+                    apply_edit(tops[k], st)
+            except Exception as e:  # noqa: BLE001
+                results.append({"edit_error": "%s: %s" % (cls(e), e), "version": len(versions) - 1, "step": st})
+                break
+            versions.append(describe_independent(tops[k]))
+            cur[k] = len(versions) - 1
     return {"atoms": versions, "results": results}
 
 
@@ -368,10 +409,57 @@ def run_all(tops, cases):
     return results
 
 
+def recursion_boundary(exprs):
+    """smallest recursion limit under which parse_selection(s) does not die with RecursionError, for each s, measured
+    by bisection from a shallow stack (a fresh thread: the measured number includes the `stack_depth` frames of the
+    caller, which is what a user's script at module level has, give or take a handful)"""
+    import threading
+    from mdtraj.core.selection import parse_selection
+    out = {}
+
+    def fits(s, lim):
+        sys.setrecursionlimit(lim)
+        try:
+            parse_selection(s)
+            return True
+        except RecursionError:
+            return False
+        except Exception:  # noqa: BLE001
+            return True
+        finally:
+            sys.setrecursionlimit(200000)
+
+    def work():
+        d, f = 0, sys._getframe()
+        while f is not None:
+            d, f = d + 1, f.f_back
+        out["stack_depth"] = d + 1                 # + the frame of fits()
+        need = {}
+        for s in exprs:
+            lo, hi = 50, 50000
+            while lo < hi:
+                mid = (lo + hi) // 2
+                if fits(s, mid):
+                    hi = mid
+                else:
+                    lo = mid + 1
+            need[s] = lo
+        out["need"] = need
+
+    threading.stack_size(1024 * 1024 * 1024)
+    th = threading.Thread(target=work)
+    th.start()
+    th.join()
+    out["default_limit"] = DEFAULT_LIMIT
+    return out
+
+
 def main():
     req = json.load(sys.stdin)
     if req["mode"] == "tables":
         out = tables()
+    elif req["mode"] == "recursion_boundary":
+        out = recursion_boundary(req["exprs"])
     elif req["mode"] == "history":
         memoise_parser()
         out = run_histories(req["histories"])
